@@ -7,8 +7,10 @@ import fnmatch
 import traceback
 
 HERE = os.path.dirname(os.path.dirname(os.path.abspath(__file__)))
-EVID = os.path.join(HERE, 'evidence')
-REPLAYS = os.path.join(HERE, 'replays')
+# outputs go to /verif unless VERIF_OUT names a scratch directory (trying a change on a scratch tree must not rewrite the evidence)
+OUT = os.environ.get('VERIF_OUT') or HERE
+EVID = os.path.join(OUT, 'evidence')
+REPLAYS = os.path.join(OUT, 'replays')
 KF_FILE = os.path.join(HERE, 'known_findings.json')
 
 
